@@ -188,8 +188,16 @@ impl TransformerContext {
         el: &SvgElement,
         seen_clips: &mut Vec<ElRef>,
     ) -> Result<Option<BoundingBox>> {
+        // (this also rejects circular chains of `use`)
         let target_el = el.get_target_element(self)?;
         let mut el_bbox = target_el.bbox()?;
+        // In a chain of `use` elements every link contributes its own x / y
+        // (and clip-path): go one step at a time.
+        if let Some(next) = el.direct_use_target(self)? {
+            if next.name == "use" || next.name == "reuse" {
+                el_bbox = self.clipped_element_bbox(next, seen_clips)?;
+            }
+        }
 
         // TODO: move following to element::bbox() ?
         if el.name == "use" || el.name == "reuse" {
